@@ -1,4 +1,6 @@
 import Orca.Model.Parse
+import Orca.Lemmas.Comp
+import Orca.Gen.DefTypes
 /-!
 # C03 — parsing never panics
 
@@ -6,9 +8,10 @@ Model M11 (`Orca.Parse`): wirm's own control flow in `Module::parse_internal` ov
 with wasmparser alone by harness/src/parse_facts.rs), with a `panic` leaf at every place where the Rust code indexes,
 looks up or subtracts. The statement below is for **every** event list — well-formed or not, in any order, of any length.
 
-PARTIAL by nature: panics inside wasmparser / wasm-encoder, allocation failure and stack exhaustion (deeply nested
-components recurse) are outside any model of wirm's code; the `parse` family (byte-level mutants of modules and
-components, hostile hand-built sections, random bytes, three parsers each) samples them.
+PARTIAL by nature: panics inside wasmparser / wasm-encoder and allocation failure are outside any model of wirm's code; the
+`parse` family (byte-level mutants of modules and components, hostile hand-built sections, random bytes, three parsers each,
+the risky ones in child processes) samples them. Stack exhaustion by recursion is wirm's own doing and is modelled since F36:
+`c03_component_nesting_bounded` (M10, the recursion of `parse_comp` over nested components is bounded by a constant).
 -/
 namespace Orca.Parse
 
@@ -75,3 +78,29 @@ example : parseM [.version 1, .funcs [5], .codeStart 1, .body false false] = .er
 example : parseM [.version 1, .names [3], .funcs [0]] = .err "IncorrectCodeCounts" := by decide
 
 end Orca.Parse
+
+namespace Orca.Comp
+
+/-- **the recursion of `Component::parse` is bounded by a constant, not by the input**: parsing a component whose nested components go
+    `n` levels deep runs `parse_comp` at depths `0 … n` when `n ≤ MAX_NESTING_DEPTH` and returns an error otherwise — never deeper
+    than `MAX_NESTING_DEPTH` (the constant is read from the source on every run). Before the repair F36 the depth was the input's:
+    about 140 levels overflowed a 2 MB stack. -/
+theorem c03_component_nesting_bounded (items : List Item) :
+    (nestL items ≤ Orca.Gen.maxNestingDepth → parseDepthL Orca.Gen.maxNestingDepth 0 items = some (nestL items))
+    ∧ (Orca.Gen.maxNestingDepth < nestL items → parseDepthL Orca.Gen.maxNestingDepth 0 items = none)
+    ∧ (∀ d, parseDepthL Orca.Gen.maxNestingDepth 0 items = some d → d ≤ Orca.Gen.maxNestingDepth) := by
+  have h := parseDepthL_spec Orca.Gen.maxNestingDepth items 0 (Nat.zero_le _)
+  refine ⟨fun hle => by simpa using h.1 (by simpa using hle), fun hlt => h.2 (by simpa using hlt), ?_⟩
+  intro d hd
+  by_cases hle : nestL items ≤ Orca.Gen.maxNestingDepth
+  · have := h.1 (by simpa using hle)
+    rw [this] at hd
+    simp only [Option.some.injEq, Nat.zero_add] at hd
+    omega
+  · have := h.2 (by omega)
+    rw [this] at hd; cases hd
+
+example : parseDepthL 2 0 [.component 1 [.component 2 [.section_ 3]], .module 4 []] = some 2
+    ∧ parseDepthL 2 0 [.component 1 [.component 2 [.component 3 []]]] = none := by decide
+
+end Orca.Comp
